@@ -481,6 +481,42 @@ def run_restart(ck, rng, quick):
     ck.count("restart_scripts", len(scripts))
 
 
+def run_threaded_resume(ck, rng, quick):
+    """the same clause with the THREADED server (listener thread + one thread per connection): events transmitted and not
+    acknowledged when their connection ends -- peer close, STOPDT act then close, application close, stop and restart of the
+    server -- are transmitted again, in order, on the next activated connection"""
+    from props import c18
+    try:
+        exe = c18.thr_harness("h_thr_resume")
+    except Exception as e:
+        ck.fail("correspondence", "harness-build:h_thr_resume", "threaded resume harness does not build: " + str(e)[:300], {"theorem": "harness"})
+        return
+    hows = {0: "the peer closed the connection", 1: "the peer sent STOPDT act and closed the connection", 2: "the application closed the connection (IMasterConnection_close)",
+            3: "the server was stopped and started again"}
+    n_run = 0
+    for how in (0, 1, 2, 3):
+        for mode in ((0, 2) if not quick else (0, 2)[how % 2:how % 2 + 1]):
+            n = rng.range(1, 6)
+            line = "how=%d mode=%d n=%d k=12" % (how, mode, n)
+            out, err, rc = c18.run_thr(exe, line)
+            ck.evaluations += 1
+            n_run += 1
+            if "hang" in out or rc not in (0,):
+                kind = "hang" if "hang" in out else "crash"
+                ck.fail("input", "thr-resume:" + kind, "threaded server, events unacknowledged when %s: the scenario %s (%s)" % (hows[how], "did not finish" if kind == "hang" else "aborted", line),
+                        {"script": [line], "stderr": err[-1500:], "harness": "h_thr_resume"})
+                continue
+            first = [int(x) for l in out if l.startswith("first") for x in l.split()[1:]]
+            second = [int(x) for l in out if l.startswith("second") for x in l.split()[1:]]
+            if first != list(range(1, n + 1)):
+                continue       # the preparation did not go as planned: not evaluated
+            if second != list(range(1, n + 1)):
+                ck.fail("input", "oracle:thr-resent:%d" % how, "threaded server: events %s were transmitted and not acknowledged when %s; the next activated connection received %s" % (
+                    first, hows[how], second), {"script": [line], "observed": out[-5:], "harness": "h_thr_resume"})
+            ck.nontriv(("thr-resume", how, mode, n))
+    ck.count("threaded_resume_scenarios", n_run)
+
+
 def run_capacity(ck, rng, quick):
     """capacity clause at server level: a server created for N event entries retains at least the N most recent equal-size
     events buffered while no client is connected -- in the single-group AND the multiple-groups mode, whatever the size of
@@ -547,6 +583,7 @@ def run(ck):
     run_unit(ck, h, m, rng, quick)
     run_trace(ck, rng, quick)
     run_capacity(ck, rng, quick)
+    run_threaded_resume(ck, rng, quick)
     run_resume_replies(ck, rng, quick)
     run_restart(ck, rng, quick)
     ck.extra["exhaustive"] = False
@@ -555,6 +592,15 @@ def run(ck):
 def replay(ck, path):
     r = json.loads(Path(path).read_text())["replay"]
     lines = r.get("script", [])
+    if r.get("harness") == "h_thr_resume":
+        from props import c18
+        out, err, rc = c18.run_thr(c18.thr_harness("h_thr_resume"), lines[0])
+        print("\n".join(out))
+        print(err[-800:])
+        ck.evaluations = 1
+        ck.nontriv(1)
+        ck.nontriv(2)
+        return
     exe = c07.harness() if any(l.startswith("cfg") for l in lines) else harness()
     res = runner.run_batch(exe, [("replay", lines)])
     print("\n".join(res["replay"]["out"]))
